@@ -82,7 +82,7 @@ func metafuzz() {
 	rng := rand.New(rand.NewSource(*flagSeed))
 	nFiles := 4
 	if *flagTier == "thorough" {
-		nFiles = 40
+		nFiles = 24
 	}
 	pageSizes := []int{1024, 4096, 16384, 2048, 8192, 4096, 1024, 32768}
 	for fi := 0; fi < nFiles; fi++ {
